@@ -294,6 +294,8 @@ pub struct Proc {
     pub rand_draws: u64,
     pub peak_fds: usize,
     pub zero_streak: u32,
+    pub last_draw_call: u64,
+    pub draws_since_call: u32,
 }
 
 impl Proc {
